@@ -109,14 +109,31 @@ func (c *clipperBase) recursiveCheckOwners(outrec *OutRec, polypath *PolyPathBas
 	}
 
 	for outrec.owner != nil {
-		if outrec.owner.splits != nil && c.checkSplitOwner(outrec, outrec.owner.splits) {
+		owner := outrec.owner
+		// the candidates at this level are the owner itself and every ring reachable through its
+		// splits; a split can lie inside its origin, beside it or around it, so the innermost
+		// (smallest) of those that contain outrec is its owner, not the first one found
+		var best *OutRec
+		if owner.splits != nil {
+			best = c.findSplitOwner(outrec, owner.splits, nil)
+		}
+		if owner.pts != nil && c.checkBounds(owner) && path1InsidePath2(outrec.pts, owner.pts) &&
+			(best == nil || math.Abs(Area64(owner.path)) <= math.Abs(Area64(best.path))) {
 			break
 		}
-		if outrec.owner.pts != nil && c.checkBounds(outrec.owner) &&
-			path1InsidePath2(outrec.pts, outrec.owner.pts) {
+		if best != nil {
+			c.adoptOwner(outrec, best)
 			break
 		}
-		outrec.owner = outrec.owner.owner
+		outrec.owner = owner.owner
+	}
+
+	// a ring without an owner may still lie inside a ring that was split off from it (or from one of
+	// its splits): horizontal joins also cut an enclosing ring off an inner one
+	if outrec.owner == nil && outrec.splits != nil {
+		if best := c.findSplitOwner(outrec, outrec.splits, nil); best != nil {
+			c.adoptOwner(outrec, best)
+		}
 	}
 
 	if outrec.owner != nil {
@@ -129,13 +146,24 @@ func (c *clipperBase) recursiveCheckOwners(outrec *OutRec, polypath *PolyPathBas
 	}
 }
 
-func (c *clipperBase) checkSplitOwner(outrec *OutRec, splits []int) bool {
+// adoptOwner makes best, which contains outrec, its owner. If outrec is on best's own owner chain (a
+// ring that contains outrec cannot be owned by it), the link into outrec is moved up to outrec's owner.
+func (c *clipperBase) adoptOwner(outrec, best *OutRec) {
+	for x := best; x != nil; x = x.owner {
+		if x.owner == outrec {
+			x.owner = outrec.owner
+			break
+		}
+	}
+	outrec.owner = best
+}
+
+// findSplitOwner returns the smallest of best and the rings reachable through splits that contain outrec.
+func (c *clipperBase) findSplitOwner(outrec *OutRec, splits []int, best *OutRec) *OutRec {
 	for _, i := range splits {
 		split := c.outrecList[i]
 		if split.pts == nil && len(split.splits) > 0 {
-			if c.checkSplitOwner(outrec, split.splits) {
-				return true
-			}
+			best = c.findSplitOwner(outrec, split.splits, best)
 		}
 
 		split = getRealOutRec(split)
@@ -146,9 +174,7 @@ func (c *clipperBase) checkSplitOwner(outrec *OutRec, splits []int) bool {
 		split.recursiveSplit = outrec
 
 		if len(split.splits) > 0 {
-			if c.checkSplitOwner(outrec, split.splits) {
-				return true
-			}
+			best = c.findSplitOwner(outrec, split.splits, best)
 		}
 
 		if !c.checkBounds(split) ||
@@ -157,14 +183,11 @@ func (c *clipperBase) checkSplitOwner(outrec *OutRec, splits []int) bool {
 			continue
 		}
 
-		if !isValidOwner(outrec, split) {
-			split.owner = outrec.owner
+		if best == nil || math.Abs(Area64(split.path)) < math.Abs(Area64(best.path)) {
+			best = split
 		}
-
-		outrec.owner = split
-		return true
 	}
-	return false
+	return best
 }
 
 func (c *clipperBase) checkBounds(outrec *OutRec) bool {
